@@ -431,11 +431,11 @@ def correspond(ctx, proof_ok=True):
         cases.append(reorder(rng, c))
     # deep-merge families: screened in volume by an uncertified comparison inside the implementation process; every
     # suspicious case and a fixed-size sample go through the full recorded run and the Coq evaluation below
-    sky = [lattice_tree(rng) for _ in range(ctx.n(10000, 200000))]
+    sky = [lattice_tree(rng) for _ in range(ctx.n(8000, 200000))]
     sky_sus = screen_batch(sky)
     pick = sky_sus[:8] + list(range(0, len(sky), max(1, len(sky) // ctx.n(8, 200))))
     cases += [sky[k] for k in sorted(set(pick))]
-    syn = [synthetic_case(rng) for _ in range(ctx.n(8000, 200000))]
+    syn = [synthetic_case(rng) for _ in range(ctx.n(6000, 200000))]
     for nn in (4, 5, 6):
         syn += exhaustive_edge_orders(rng, nn)
     syn = [c for c in syn if synthetic_covered(c)]
